@@ -21,6 +21,9 @@ var corpus = []baseDoc{
 	{"nw-empty-labels", "newick", "((,),(,));"},
 	{"nw-single", "newick", "(a);"},
 	{"nw-negative", "newick", "((a:-1,b:0)-0.5:1e400,c:NaN,d:.5);"},
+	{"nw-root-length", "newick", "((a:1,b:2)0.5:3,(c:4,d:5)0.25/0.01:6)0.75:7;"},
+	{"nw-inner-comment-only", "newick", "((a,b)[x],(c,d)[&&NHX:S=1])[y];"},
+	{"nw-sci", "newick", "(a:1E-5,b:1.5e+3,(c:0.0,d:-0.0):1e0);"},
 	// ---- multi-tree Newick streams
 	{"multi-3", "multi", "((a:1,b:1)0.9:1,c:1,d:1);\n((a:1,c:1):1,b:1,d:1);\n(a,b,(c,d));\n"},
 	{"multi-blank-lines", "multi", "((a:1,b:1)0.9:1,c:1,d:1);\n  \n((a:1,c:1):1,\n b:1,d:1)[c;x];\n\t\n(a,b,(c,d));\n"},
@@ -30,6 +33,8 @@ var corpus = []baseDoc{
 	{"multi-long-line", "multi", "((aaaaaaaaaaaaaaaaaaaaaaaa:1.000000000001,bbbbbbbbbbbbbbbbbbbbbbbbbbbbb:1.00000000002)0.999999:1,cccccccccccccccccccc:1,dddddddddddddd:1);\n(a,b,(c,d));\n"},
 	{"multi-bad-middle", "multi", "(a,b,(c,d));\n(a,c,(b,d);\n(a,d,(b,c));\n"},
 	{"multi-leading-blank", "multi", "\n\n \n(a,b,(c,d));\n"},
+	{"multi-tab-after-semicolon", "multi", "(a,b,(c,d));\t\n(a,c,(b,d)); \t \n(a,d,(b,c));\t"},
+	{"multi-semicolon-in-comment", "multi", "(a[x;y],b,(c,d));\n(a,c,(b,d)[;]);\n"},
 	// ---- Nexus
 	{"nx-full", "nexus", `#NEXUS
 [ a comment ]
@@ -66,6 +71,10 @@ END;
 	{"nx-lowercase", "nexus", "#nexus\nbegin taxa;\ndimensions ntax=4;\ntaxlabels a b c d;\nend;\nbegin trees;\ntranslate 1 a, 2 b, 3 c, 4 d;\ntree t = (1,2,(3,4));\nend;\n"},
 	{"nx-interleaved-comments", "nexus", "#NEXUS\nBEGIN TAXA; [x] DIMENSIONS [y] NTAX=2; TAXLABELS [z] a b; END;\nBEGIN TREES; TREE [w] t = (a,b); END;\n"},
 	{"nx-sets", "nexus", "#NEXUS\nBEGIN SETS;\nCHARSET first = 1-10;\nEND;\nBEGIN ASSUMPTIONS;\nOPTIONS DEFTYPE=unord;\nEND;\nBEGIN TREES;\nTREE t=(a,b,c);\nEND;\n"},
+	{"nx-empty-trees", "nexus", "#NEXUS\nBEGIN TREES;\nEND;\n"},
+	{"nx-weights-rooting", "nexus", "#NEXUS\nBEGIN TREES;\nTREE * best = [&R] [&W 1/3] ((a:1,b:1):1,c:2);\nUTREE u = [&U] (a,b,c);\nEND;\n"},
+	{"nx-translate-numeric-tips", "nexus", "#NEXUS\nBEGIN TAXA;\nDIMENSIONS NTAX=3;\nTAXLABELS 1 2 3;\nEND;\nBEGIN TREES;\nTRANSLATE 0 1, 1 2, 2 3;\nTREE t = (0,1,2);\nEND;\n"},
+	{"nx-data-interleave", "nexus", "#NEXUS\nBEGIN DATA;\nDIMENSIONS NTAX=2 NCHAR=4;\nFORMAT DATATYPE=DNA INTERLEAVE=yes MISSING=N GAP=-;\nMATRIX\ns1 AC\ns2 A-\n\ns1 GT\ns2 NT\n;\nEND;\nBEGIN TREES;\nTREE t=(s1,s2);\nEND;\n"},
 	// ---- PhyloXML
 	{"px-two", "phyloxml", `<?xml version="1.0" encoding="UTF-8"?>
 <phyloxml xmlns="http://www.phyloxml.org">
@@ -87,11 +96,14 @@ END;
 	{"px-taxonomy", "phyloxml", `<phyloxml><phylogeny rooted="true"><clade><clade><taxonomy><id provider="ncbi">9606</id><scientific_name>Homo sapiens</scientific_name><code>HUMAN</code></taxonomy></clade><clade><taxonomy><code>MOUSE</code></taxonomy><branch_length>0.5</branch_length></clade></clade></phylogeny></phyloxml>`},
 	{"px-empty", "phyloxml", `<phyloxml></phyloxml>`},
 	{"px-noname-tip", "phyloxml", `<phyloxml><phylogeny rooted="true"><clade><clade></clade><clade><name>b</name></clade></clade></phylogeny></phyloxml>`},
+	{"px-root-length-confidence", "phyloxml", `<phyloxml><phylogeny rooted="true"><clade><name>root</name><branch_length>0.5</branch_length><confidence type="bootstrap">0.9</confidence><clade><name>a</name><branch_length>1</branch_length><confidence type="x">0.1</confidence></clade><clade><branch_length>2</branch_length><confidence type="bootstrap">0.7</confidence><clade><name>b</name></clade><clade><name>c</name></clade></clade></clade></phylogeny></phyloxml>`},
+	{"px-attrs-and-extras", "phyloxml", `<?xml version="1.0"?><phyloxml><phylogeny rooted="maybe" rerootable="true"><name>x</name><description>d</description><clade branch_length="0.3"><clade><name>a</name><events><speciations>1</speciations></events></clade><clade><name>b</name><property ref="p" datatype="xsd:string" applies_to="clade">v</property></clade></clade></phylogeny><phylogeny rooted="false"></phylogeny></phyloxml>`},
 	// ---- Nextstrain
 	{"ns-small", "nextstrain", `{"version":"v2","meta":{"title":"t"},"tree":{"name":"NODE_0","node_attrs":{"div":0},"children":[{"name":"a","node_attrs":{"div":1.5,"num_date":{"value":2020.1,"confidence":[2020.0,2020.2]},"country":{"value":"FR"},"accession":"AB:1, 2"},"branch_attrs":{"labels":{"aa":"S: A1B, C2D"},"mutations":{"nuc":["A1T"]}}},{"name":"NODE_1","node_attrs":{"div":1},"children":[{"name":"b","node_attrs":{"div":2}},{"name":"c","node_attrs":{"div":2.5}}]}]}}`},
 	{"ns-v1", "nextstrain", `{"version":"v1","tree":{"name":"r","children":[]}}`},
 	{"ns-leaf-root", "nextstrain", `{"version":"v2","tree":{"name":"only"}}`},
 	{"ns-notree", "nextstrain", `{"version":"v2"}`},
+	{"ns-deeper", "nextstrain", `{"version":"v2","tree":{"name":"r","node_attrs":{"div":0.5,"num_date":{"value":2019.5}},"branch_attrs":{"labels":{"aa":"x"}},"children":[{"name":"i","node_attrs":{"div":1},"children":[{"name":"i2","children":[{"name":"a","node_attrs":{"div":3,"region":{"value":"eu","entropy":0.1,"confidence":{"eu":0.9}}}},{"name":"b"}]},{"name":"c","node_attrs":{"div":0.25},"children":[]}]},{"name":"d","node_attrs":{"div":null}}]}}`},
 }
 
 func corpusFor(format string) []baseDoc {
